@@ -85,6 +85,8 @@ class Flag(int):
     def __ne__(self, other): return int(int(self) != other)
     def __hash__(self): return int.__hash__(self)
     def __repr__(self): return "Flag({})".format(int(self))
+    # formatting differs from str(): an f-string field without a specification goes through __format__(""), not through str()
+    def __format__(self, spec): return "<" + int.__format__(int(self), spec) + ">"
 
 
 class OddDict(dict):
